@@ -99,7 +99,7 @@ func (Implementation) Dlarfb(side blas.Side, trans blas.Transpose, direct lapack
 		panic(badLdWork)
 	}
 
-	if m == 0 || n == 0 {
+	if m == 0 || n == 0 || k == 0 {
 		return
 	}
 
